@@ -164,6 +164,26 @@ def h_native(vc):
         _must_raise(vc, "ConvexPolyhedron(cube with a duplicated face)", vc.call(mk, cube + [cube[0]]), ValueError)
         far = [[(5, 5, 5), (6, 5, 5), (6, 6, 5), (5, 6, 5)]]
         _must_raise(vc, "ConvexPolyhedron(cube plus a detached face)", vc.call(mk, cube + far), ValueError)
+        # face sets in which open edges (in one face) are balanced by over-used edges (in three or four faces)
+        for i in range(6):
+            for j in range(6):
+                if i != j:
+                    fs = [f for k, f in enumerate(cube) if k != i] + [cube[j]]
+                    _must_raise(vc, "ConvexPolyhedron(cube without face %d, face %d twice)" % (i, j), vc.call(mk, fs), ValueError)
+        lo, hi, mid = 0, 3, 1
+        ring = lambda z0, z1: [[(0, 0, z0), (2, 0, z0), (2, 0, z1), (0, 0, z1)], [(2, 0, z0), (2, 2, z0), (2, 2, z1), (2, 0, z1)],
+                               [(2, 2, z0), (0, 2, z0), (0, 2, z1), (2, 2, z1)], [(0, 2, z0), (0, 0, z0), (0, 0, z1), (0, 2, z1)]]
+        sq = lambda z: [(0, 0, z), (2, 0, z), (2, 2, z), (0, 2, z)]
+        _must_raise(vc, "ConvexPolyhedron(open box with an inner shelf: V=12, E=20, F=10)", vc.call(mk, [sq(lo)] + ring(lo, mid) + ring(mid, hi) + [sq(mid)]), ValueError)
+        _must_raise(vc, "ConvexPolyhedron(two stacked boxes including the shared face)", vc.call(mk, [sq(lo)] + ring(lo, mid) + ring(mid, hi) + [sq(mid), sq(hi)]), ValueError)
+        tet = [[(0, 0, 0), (2, 0, 0), (0, 2, 0)], [(0, 0, 0), (2, 0, 0), (0, 0, 2)], [(0, 0, 0), (0, 2, 0), (0, 0, 2)], [(2, 0, 0), (0, 2, 0), (0, 0, 2)]]
+        vc.ensure("control: the closed tetrahedron is accepted", vc.call(mk, tet).returned)
+        for i in range(4):
+            _must_raise(vc, "ConvexPolyhedron(tetrahedron without face %d)" % i, vc.call(mk, [f for k, f in enumerate(tet) if k != i]), ValueError)
+            for j in range(4):
+                if i != j:
+                    _must_raise(vc, "ConvexPolyhedron(tetrahedron without face %d, face %d twice)" % (i, j), vc.call(mk, [f for k, f in enumerate(tet) if k != i] + [tet[j]]), ValueError)
+        _must_raise(vc, "ConvexPolyhedron(two disjoint triangles)", vc.call(mk, [tet[0], [(5, 5, 5), (7, 5, 5), (5, 7, 5)]]), ValueError)
         # coplanar (dependent but pairwise non-parallel) parallelepiped vectors
         v1, v2 = (2, 0, 0), (0, 3, 0)
         R = pose[0]
